@@ -1,4 +1,302 @@
-/-! oracle driver for the env engine: --clean (C12) and variables/template/environment (C13) (to be written) -/
+import Spok.Wire
+import Spok.Judge.Env
+/-! oracle driver for the env engine: `--clean` (C12) and variables / template / environment (C13).
+
+A line is `<case> | <what the real binary did>`; a case is a flat word stream written by
+`harness/cmd/vh-env` (see `encode` there), arbitrary text hex-encoded, the sandbox root written `/S`. -/
 namespace Spok.Oracle.Env
-def handle (line : String) : String := "TODO " ++ line
+open Spok Spok.Wire Spok.Clean Spok.Env Spok.Judge.Env
+
+def toStr (bs : List UInt8) : Str := bs.map (fun b => Char.ofNat b.toNat)
+def hexStr (s : Str) : String := hexBytes (s.map (fun c => UInt8.ofNat c.toNat))
+def lit (s : String) : Str := s.toList
+
+/-! ## reading the word stream -/
+abbrev P := StateT (List String) Option
+
+def word : P String := fun ws => match ws with
+  | [] => none
+  | w :: rest => some (w, rest)
+
+def expect (s : String) : P Unit := do
+  let w ← word
+  if w == s then pure () else failure
+
+def num : P Nat := do
+  let w ← word
+  match w.toNat? with
+  | some n => pure n
+  | none => failure
+
+def str : P Str := do
+  let w ← word
+  match unhex w with
+  | some bs => pure (toStr bs)
+  | none => failure
+
+def rep {α} (p : P α) : Nat → P (List α)
+  | 0 => pure []
+  | n + 1 => do let a ← p; let r ← rep p n; pure (a :: r)
+
+def counted {α} (p : P α) : P (List α) := do let n ← num; rep p n
+
+def pair : P (Str × Str) := do let a ← str; let b ← str; pure (a, b)
+
+structure TreeEntry where
+  kind : String
+  path : Str
+  content : Str
+
+def treeEntry : P TreeEntry := do
+  let k ← word; let p ← str; let c ← str; pure ⟨k, p, c⟩
+
+def qitem : P QItem := do
+  let k ← word
+  let s ← str
+  if k == "r" then pure (.ref s) else if k == "t" then pure (.text s) else failure
+
+def shPiece : P ShPiece := do
+  let k ← word
+  match k with
+  | "B" => do let s ← str; pure (.bare s)
+  | "R" => do let s ← str; pure (.tref s)
+  | "E" => do let s ← str; pure (.evar s)
+  | "D" => do let s ← str; pure (.dq s)
+  | "Q" => do let q ← counted qitem; pure (.sq q)
+  | _ => failure
+
+def command : P Command := do
+  let k ← word
+  match k with
+  | "RAWC" => do let src ← str; let out ← str; let st ← num; pure (.raw src ⟨out, st⟩)
+  | "W" => do let ws ← counted (counted shPiece); pure (.words ws)
+  | _ => failure
+
+def globOut : P GlobOut := do
+  let p ← str; let hits ← counted str; pure ⟨p, hits⟩
+
+structure TaskFull where
+  clean : Clean.Task
+  cmds : List Command
+
+inductive StmtFull where
+  | decl (n : Str) (r : Rhs)
+  | task (t : TaskFull)
+
+def stmt : P StmtFull := do
+  let k ← word
+  match k with
+  | "V" => do
+    let n ← str
+    let kind ← word
+    match kind with
+    | "S" => do let v ← str; pure (.decl n (.str v))
+    | "J" => do let args ← counted str; pure (.decl n (.join args))
+    | "X" => do let args ← counted str; let out ← str; let st ← num; pure (.decl n (.exec args ⟨out, st⟩))
+    | _ => failure
+  | "T" => do
+    let n ← str
+    let files ← counted str
+    let named ← counted str
+    let globs ← counted globOut
+    let cmds ← counted command
+    pure (.task ⟨⟨n, files, named, globs⟩, cmds⟩)
+  | _ => failure
+
+structure Case where
+  prop : String
+  judged : Bool
+  cwd : Str
+  amb : List (Str × Str)
+  dot : List (Str × Str)
+  tree : List TreeEntry
+  stmts : List StmtFull
+
+def caseP : P Case := do
+  let prop ← word
+  let j ← word
+  expect "CWD"; let cwd ← str
+  expect "AMB"; let amb ← counted pair
+  expect "DOT"; let dot ← counted pair
+  expect "TREE"; let tree ← counted treeEntry
+  expect "STMTS"; let stmts ← counted stmt
+  pure ⟨prop, j == "J", cwd, amb, dot, tree, stmts⟩
+
+def wordsOf (s : String) : List String := (s.splitOn " ").filter (· ≠ "")
+
+def parseCase (s : String) : Option Case :=
+  match caseP.run (wordsOf s) with
+  | some (c, []) => some c
+  | _ => none
+
+/-! ## sections of the implementation's observation -/
+
+def sect (secs : List String) (name : String) : Option String :=
+  (secs.find? (fun s => s.startsWith (name ++ " ") || s == name)).map
+    fun s => ((s.drop (name.length)).toString.trimAscii).toString
+
+def root : Str := lit "/S"
+def projDir : Str := lit "/S/a/home/proj"
+
+def absOfRel (rel : Str) : Str := root ++ '/' :: rel
+
+def snapEntry : P (Path × Kind) := do
+  let k ← word; let p ← str; let h ← word
+  let path := pathOf (absOfRel p)
+  pure (path, if k == "d" then Kind.dir else Kind.file (lit (k ++ ":" ++ h)))
+
+def parseSnap (s : String) : Option FS :=
+  match (counted snapEntry).run (wordsOf s) with
+  | some (fs, []) => some fs
+  | _ => none
+
+def cacheEntry : Path × Kind := (pathOf (join [projDir, cacheDirName]), Kind.dir)
+
+def withCache (fs : FS) (present : Bool) : FS := if present then fs ++ [cacheEntry] else fs
+
+def relOf (p : Path) : Str := glue (p.drop 1)
+
+def snapStr (fs : FS) : String :=
+  let es := fs.filter (fun e => e.1 ≠ cacheEntry.1)
+  let ws := es.flatMap fun e =>
+    match e.2 with
+    | .dir => ["d", hexStr (relOf e.1), "-"]
+    | .file c =>
+      let s := String.ofList c
+      match s.splitOn ":" with
+      | [k, h] => [k, hexStr (relOf e.1), h]
+      | _ => ["f", hexStr (relOf e.1), s]
+  " ".intercalate (toString es.length :: ws)
+
+def hasCache (fs : FS) : Bool := fs.any (fun e => e.1 = cacheEntry.1)
+def presentStr (b : Bool) : String := if b then "present" else "absent"
+
+def verdict : Option Bool → String
+  | some true => "ok"
+  | some false => "FAIL"
+  | none => "na"
+
+def toEnvStmt : StmtFull → Env.Stmt
+  | .decl n r => .decl n r
+  | .task t => .task ⟨t.clean.name, t.cmds.map Command.src⟩
+
+def toStmtCase : StmtFull → StmtCase
+  | .decl n r => .decl n r
+  | .task t => .task ⟨t.clean.name, t.cmds⟩
+
+def cleanTasks : List StmtFull → List Clean.Task
+  | [] => []
+  | .task t :: rest => t.clean :: cleanTasks rest
+  | .decl _ _ :: rest => cleanTasks rest
+
+/-- what running the user's clean task does to the tree: its commands only print; the run creates the cache -/
+def cleanTaskRun (fs : FS) : FS × Bool := (if hasCache fs then fs else fs ++ [cacheEntry], true)
+
+def errStr : ErrClass → String
+  | .none => "none" | .refused => "refused" | .other => "err" | .hang => "hang"
+
+def readErr (s : String) : ErrClass :=
+  if s == "none" then .none else if s == "refused" then .refused else if s == "hang" then .hang else .other
+
+def handleC12 (c : Case) (secs : List String) : String :=
+  let cwd := absOfRel c.cwd
+  match load cwd (c.stmts.map toEnvStmt) with
+  | .error _ => "ERR load || C12=na C13=na"
+  | .ok f =>
+    let sf : SpokFile := ⟨projDir, f.vars, cleanTasks c.stmts⟩
+    match (sect secs "BEFORE").bind parseSnap, (sect secs "AFTER").bind parseSnap with
+    | some before0, some after0 =>
+      let c0 := sect secs "CACHE0" == some "present"
+      let c1 := sect secs "CACHE" == some "present"
+      let before := withCache before0 c0
+      let after := withCache after0 c1
+      -- model
+      let isClean := sf.hasTask cleanName
+      let m := obsOfModel sf cwd before cleanTaskRun isClean
+      let model := s!"ERR {errStr m.err} ; RAN {if isClean then 1 else 0} ; CACHE {presentStr (hasCache m.after)} ; AFTER {snapStr m.after}"
+      -- judge on the implementation's behaviour
+      let obs : Obs12 := ⟨readErr ((sect secs "ERR").getD "?"), sect secs "RAN" == some "1", before, after⟩
+      let v := if c.judged then verdict (c12 sf cwd obs) else "na"
+      s!"{model} || C12={v} C13=na"
+    | _, _ => "BAD-SNAPSHOT || C12=FAIL C13=na"
+
+def readPhase (s : String) : Phase :=
+  if s == "ok" then .ok else if s == "err" then .err else if s == "none" then .none else .other
+
+def rowP : P (Option Row) := do
+  let t ← str
+  let i ← word
+  let cmd ← str
+  let out ← str
+  let st ← num
+  match i.toNat? with
+  | some i => pure (some ⟨t, i, cmd, out, st⟩)
+  | none => pure none
+
+def parseRows (s : String) : Option (List Row) :=
+  match (counted rowP).run (wordsOf s) with
+  | some (rs, []) => rs.mapM id
+  | _ => none
+
+def parseVars (s : String) : Option (List (Str × Str)) :=
+  match (counted pair).run (wordsOf s) with
+  | some (vs, []) => some vs
+  | _ => none
+
+def varsStr (vs : List (Str × Str)) : String :=
+  " ".intercalate (toString vs.length :: vs.flatMap (fun p => [hexStr p.1, hexStr p.2]))
+
+def taskRows (f : File) (env : Str → Option Str) (t : TaskFull) : List String :=
+  let scope := scopeOf f t.clean.name
+  (List.range t.cmds.length).flatMap fun i =>
+    match t.cmds[i]? with
+    | none => []
+    | some c =>
+      let cmd := match expand scope c.src with
+        | .ok e => hexStr e
+        | .error _ => "UNMODELLED"
+      let out := match c.stdout scope env with
+        | some o => hexStr o
+        | none => "UNMODELLED"
+      [hexStr t.clean.name, toString i, cmd, out, "0"]
+
+def fullTasks : List StmtFull → List TaskFull
+  | [] => []
+  | .task t :: rest => t :: fullTasks rest
+  | .decl _ _ :: rest => fullTasks rest
+
+def handleC13 (c : Case) (secs : List String) : String :=
+  let cwd := absOfRel c.cwd
+  let tasks := fullTasks c.stmts
+  let model :=
+    match load cwd (c.stmts.map toEnvStmt) with
+    | .error _ => "LOAD err ; VARS 0 ; RUN none ; CMDS 0"
+    | .ok f =>
+      -- the order of `SpokFile.Env()` is Go's map order; no name occurs twice, so any order gives the same lookups
+      let env := lookup (mergeEnv c.amb c.dot f.vars)
+      let rows := tasks.flatMap (taskRows f env)
+      let n := rows.length / 5
+      let run := if tasks.isEmpty then "none" else "ok"
+      s!"LOAD ok ; VARS {varsStr (sortRows f.vars)} ; RUN {run} ; CMDS {" ".intercalate (toString n :: rows)}"
+  let obs : Option Obs13 := do
+    let vars ← (sect secs "VARS").bind parseVars
+    let rows ← (sect secs "CMDS").bind parseRows
+    pure ⟨readPhase ((sect secs "LOAD").getD "?"), vars, readPhase ((sect secs "RUN").getD "?"), rows⟩
+  let v := match obs with
+    | none => "FAIL"
+    | some o => if c.judged then verdict (c13 cwd (c.stmts.map toStmtCase) o) else "na"
+  s!"{model} || C12=na C13={v}"
+
+def handle (line : String) : String :=
+  match line.splitOn " | " with
+  | [inp, impl] =>
+    match parseCase inp with
+    | none => "BAD-CASE || C12=FAIL C13=FAIL"
+    | some c =>
+      let secs := (impl.splitOn " ; ").map (fun x => x.trimAscii.toString)
+      if c.prop == "C12" then handleC12 c secs
+      else if c.prop == "C13" then handleC13 c secs
+      else "BAD-PROP || C12=FAIL C13=FAIL"
+  | _ => "BAD-LINE || C12=FAIL C13=FAIL"
+
 end Spok.Oracle.Env
